@@ -7,7 +7,8 @@ partials, `t` distinct indices, then the group signature of the message).
 -/
 import Drand.Beacon.Node
 import Drand.Driver.Store
-namespace Drand.Driver
+namespace Drand.Driver.AggD
+open Drand.Driver.StoreD
 open Drand Drand.Beacon Drand.Chain Drand.Store
 
 structure AggState where
@@ -213,4 +214,4 @@ def aggStep (d : AggState) (f : List String) : AggState × String :=
     | none => (d, "bad-op")
   | _ => (d, "bad-op")
 
-end Drand.Driver
+end Drand.Driver.AggD
